@@ -8,4 +8,4 @@ package reddit
 //@ func AddCookies
 //@   property C10
 //@   opaque
-//@   sweep idx slice div
+//@   sweep idx slice div assert
